@@ -298,7 +298,7 @@ func enumerate(r *kit.Rng, s *Schema) []Edit {
 
 func isCompatKind(k string) bool {
 	switch k {
-	case "self", "add_table", "add_view", "add_fn", "add_ws", "use_ws":
+	case "self", "add_table", "add_view", "add_fn", "add_ws", "use_ws", "add_pkg_table":
 		return true
 	}
 	return false
@@ -455,7 +455,7 @@ func runCase(s *Schema, e Edit) (c kit.Case, ok bool, err error) {
 		}
 	}
 	// tag only the C18-PKG behaviour produces: a purely additive edit whose only reports sit at AppDef/Packages
-	if claim.Kind == "additive" && len(cerrs.Errors) > 0 {
+	if e.Kind == "add_pkg_table" && len(cerrs.Errors) > 0 {
 		only := true
 		for _, ce := range cerrs.Errors {
 			if strings.Join(ce.OldTreePath, "/") != ac.NodeNameAppDef+"/"+ac.NodeNamePackages {
